@@ -18,7 +18,14 @@ inputs:         schema-directed random documents of every document class built t
                 empty shell (outside in) or as a LOADED document that already has its nested objects (Gen.nest);
                 documents built after a HISTORY of the process: packages with foreign members loaded and saved 1-3
                 times before (Gen.history / play_history); built and loaded documents saved 2-3 times (rec['resave']);
-                the first package holds the members of the built document and nothing else (members_of_the_document)
+                the first package holds the members of the built document and nothing else (members_of_the_document);
+                pictures registered under explicit names that some normalisation would change (Gen.picture_names: base +
+                combining mark / precomposed, Angstrom sign, Hangul jamo / syllable, marks out of canonical order, composition
+                exclusions, blanks, "%", "%20", "+", case pairs, other scripts), several of them differing ONLY by such a
+                normalisation, in the document and in a sub-document, each referenced by a draw:image: same names, same
+                bytes, every reference still names its picture (picture_references), second generation equal;
+                parts > 128 KiB of 2-, 3- and 4-byte characters only (Gen.big_part, loadcommon.straddle_text) in content.xml
+                and styles.xml, three paddings one byte apart: a character lies across every byte offset 2^12..2^17
 """
 import io, os, re, sys, json, importlib, contextlib, warnings, tempfile, shutil
 import common
@@ -408,6 +415,68 @@ class Gen(object):
         return rec
 
 
+    # pieces of picture names: pairs / triples that ONE of the usual normalisations (NFC, NFD, NFKC, case folding, percent
+    # decoding, "+" for blank, trimming) would identify, and characters a path or URL handler might treat specially
+    PIC_PAIRS = [[u're\u0301sume\u0301', u'r\u00e9sum\u00e9'], [u'\u212bngstrom', u'\u00c5ngstrom', u'A\u030angstrom'],
+                 [u'\u1112\u1161\u11ab', u'\ud55c'], [u'q\u0307\u0323', u'q\u0323\u0307'], [u'\u0958', u'\u0915\u093c'],
+                 [u'a b', u'a%20b', u'a+b'], [u'Img', u'img', u'IMG'], [u'\u2126', u'\u03a9'], [u'stra\u00dfe', u'strasse'],
+                 [u'\ufb01le', u'file'], [u'100%', u'100%25'], [u'\u00e9', u'%C3%A9']]
+    PIC_PIECES = [u'e\u0301', u'\u00e9', u'\u212b', u'\u1112\u1161', u'\ud55c', u'o\u0323\u0302', u'\u0958', u' ', u'%', u'%41', u'+', u'x',
+                  u'\u4e2d\u6587', u'\U0001F600', u'&', u"'", u'#', u'?', u'sub/', u'.', u',', u'\u0131', u'\u00a0', u'=', u';', u'~', u'(1)']
+
+    def picture_names(self, fixed):
+        r = self.rng
+        if fixed:
+            stems = [x for pr in self.PIC_PAIRS for x in pr]
+        else:
+            stems = []
+            for pr in r.sample(self.PIC_PAIRS, 3):
+                stems += pr
+            for _ in range(6):
+                st = u''.join(r.choice(self.PIC_PIECES) for _ in range(r.randint(1, 4))).strip(u' /')
+                if st and not st.endswith(u'.') and u'//' not in st and st not in stems:
+                    stems.append(st)
+        return [u'Pictures/%s%s' % (st, r.choice([u'.png', u'.png', u'', u'.\u00e9'])) for st in stems]
+
+    def pictures_doc(self, fixed, cls=None):
+        """a random document whose pictures are registered by explicit name (picture_names), each referenced from the body
+        by a draw:image; a Text sub-document with named pictures of its own"""
+        r = self.rng
+        rec = self.document(2, cls or r.choice(['Text', 'Drawing', 'Presentation']))
+        def fill(d, names):
+            d['pictures'] = []
+            for k, nm in enumerate(names):
+                data = enc_bytes((u'%d:%s' % (k, nm)).encode('utf-8') + bytes(bytearray(r.randrange(256) for _ in range(r.randint(0, 12)))))
+                d['pictures'].append(['named', nm, r.choice([u'image/png', u'image/jpeg']), data])
+            img = lambda nm: ('E', L.DRAWNS, u'frame', [(L.SVGNS, u'width', u'1cm'), (L.SVGNS, u'height', u'1cm')],
+                              [('E', L.DRAWNS, u'image', [(L.XLINKNS, u'href', nm)], [])])
+            if d['class'] in ('Text', 'TextMaster'):
+                d['body'] = list(d['body']) + [('E', L.TEXTNS, u'p', [], [img(nm), ('T', u' ')]) for nm in names]
+            elif d['class'] in ('Drawing', 'Presentation'):
+                d['body'] = list(d['body']) + [('E', L.DRAWNS, u'page', [(L.DRAWNS, u'name', u'pictures by name'), (L.DRAWNS, u'master-page-name', u'Standard')],
+                                                [img(nm) for nm in names])]
+        names = self.picture_names(fixed)
+        fill(rec, names)
+        sub = self.document(2, 'Text')
+        sub['objects'] = []
+        fill(sub, r.sample(names, 4) + self.picture_names(False)[-3:])
+        rec['objects'] = [sub]
+        return rec
+
+    def big_part(self, pad, objects=False):
+        """an otherwise empty text document with one paragraph in the body (content.xml) and one in a page header
+        (styles.xml) of ~140 KB of multi-byte characters (realise_extreme 'big'); ASCII in front of them, so that the byte
+        offset of the first multi-byte character can be read off the saved part"""
+        blank = lambda: {'class': 'Text', 'pictures': [], 'objects': [], 'thumbnail': None, 'styles': [], 'auto': [], 'body': [],
+                         'master': [], 'fonts': [], 'settings': [], 'meta': [], 'scripts': []}
+        rec = blank()
+        rec['extreme'] = {'style': u'BigOnly', 'kind': 'span', 'depth': 0, 'wide': 0, 'long': 0, 'big': {'pad': [pad, pad], 'orders': [0, 1]}}
+        if objects:
+            o = blank()
+            o['extreme'] = {'style': u'BigOnlyO', 'kind': 'span', 'depth': 0, 'wide': 0, 'long': 0, 'big': {'pad': [pad, pad], 'orders': [2, 0]}}
+            rec['objects'] = [o]
+        return rec
+
     def nest(self, levels, cls=None):
         """a document with a chain of `levels` objects inside each other (Object 1/Object 1/.../), siblings beside some
         links of the chain, each sub-document attached 'last' (inside out), 'first' (outside in) or 'loaded'"""
@@ -582,6 +651,16 @@ def realise_extreme(V, ex, d, top):
         p = text.P(); host.addElement(p); p.addText(u'w%d' % i)
         if i == ex['wide'] - 1:
             p.addElement(leaf())
+    if ex.get('big'):
+        b = ex['big']
+        p = text.P(); host.addElement(p)
+        p.addText(L.straddle_text(b['pad'][0], b['orders'][0]))
+        p.addElement(leaf())
+        d.automaticstyles.addElement(style.PageLayout(name=u'BigPL'))
+        mp = style.MasterPage(name=u'BigMaster', pagelayoutname=u'BigPL'); d.masterstyles.addElement(mp)
+        hd = style.Header(); mp.addElement(hd)
+        p = text.P(); hd.addElement(p)
+        p.addText(L.straddle_text(b['pad'][1], b['orders'][1]))
     if ex.get('long'):
         p = text.P(); host.addElement(p)
         unit = u'long text with & < > " \' \t and é\U0001F600 '
@@ -779,6 +858,7 @@ def compare_docs(rep, s1, s2, pkg1, folder, where=''):
                 rep.add('picture-bytes-differ', '%spicture %r: %d bytes became %d other bytes' % (where, n, len(p1[n][1]), len(p2[n][1])))
             elif p1[n][0] != p2[n][0]:
                 rep.add('picture-media-type-differs', '%spicture %r: media type %r became %r' % (where, n, p1[n][0], p2[n][0]))
+    picture_references(rep, s1, s2, where)
     # sub-documents
     o1 = s1['objects']; o2 = s2['objects']
     if folder and o1 and not o2:
@@ -788,6 +868,26 @@ def compare_docs(rep, s1, s2, pkg1, folder, where=''):
     else:
         for i, (a, b) in enumerate(zip(o1, o2)):
             compare_docs(rep, a, b, pkg1, u'%sObject %d/' % (folder, i + 1), where + 'Object %d/ ' % (i + 1))
+
+
+def hrefs_of(forest):
+    return [L.attr(e, L.XLINKNS, 'href') for k in forest for e in L.elems(k) if L.attr(e, L.XLINKNS, 'href') is not None]
+
+
+def picture_references(rep, s1, s2, where):
+    """a reference of the built document (xlink:href in the body) that names one of ITS pictures names, in the loaded
+    document, a picture with the same bytes: the reference is still there and still resolves"""
+    h2 = hrefs_of(s2['body'])
+    for h in hrefs_of(s1['body']):
+        if h not in s1['pictures']:
+            continue
+        if h not in h2:
+            rep.add('picture-reference-changed', '%sthe reference %r to a picture of the document is not in the loaded body' % (where, h))
+        elif h not in s2['pictures']:
+            rep.add('picture-reference-dangling', '%sthe reference %r named a picture of the built document; the loaded document has no picture of that name (it has %r)'
+                    % (where, h, sorted(s2['pictures'])[:6]))
+        elif s2['pictures'][h][1] != s1['pictures'][h][1]:
+            rep.add('picture-reference-other-bytes', '%sthe reference %r resolves to other bytes after load' % (where, h))
 
 
 def unwritten_referrer_only(s1, folder_snapshot, gone):
@@ -1033,10 +1133,23 @@ def run_recipe(V, rec, tmpdir):
     rep = Rep()
     if rec.get('history'):
         play_history(V, [json.loads(json.dumps(st)) for st in rec['history']], tmpdir)
+    big = (rec.get('extreme') or {}).get('big')
+    if big and big.get('at'):
+        # what stands in front of the text of a part depends on the history of the process: the paddings are chosen so that
+        # the multi-byte characters lie at the recorded byte offsets mod 12 (a probe document is built and saved to see)
+        for _ in range(4):
+            pp = L.read_pkg(save_bytes(realise(V, rec, tmpdir)))
+            off = [L.first_wide_offset(pp.data[u'content.xml']), L.first_wide_offset(pp.data[u'styles.xml'])]
+            if all((o - a) % 12 == 0 for o, a in zip(off, big['at'])):
+                break
+            big['pad'] = [(q + a - o) % 12 for q, a, o in zip(big['pad'], big['at'], off)]
     d = realise(V, rec, tmpdir)
     s1 = snapshot(d)
     raw1 = save_bytes(d)
     p1 = L.read_pkg(raw1)
+    if big:
+        big['at'] = [L.first_wide_offset(p1.data[u'content.xml']), L.first_wide_offset(p1.data[u'styles.xml'])]
+        rep.straddled = dict((n, L.straddled_offsets(p1.data[n])) for n in sorted(p1.data) if n.split(u'/')[-1] in (u'content.xml', u'styles.xml'))
     generator_check(rep, p1)
     members_of_the_document(rep, s1, p1)
     d2, printed = load_bytes(raw1)
@@ -1102,7 +1215,13 @@ def run(chk, replay=None):
             chk.prove(modules=['OdfModel.Props.C04'], drivers=['drv_load'])
             drv = chk.driver('drv_load')
         if replay is not None:
-            rep, raw1, d2, s1 = run_recipe(V, replay['input'], tmpdir)
+            try:
+                rep, raw1, d2, s1 = run_recipe(V, replay['input'], tmpdir)
+            except Exception as e:
+                if not (replay.get('signature') or '').startswith('raises:'):
+                    raise
+                print('replay: raises:%s :: %s' % (type(e).__name__, repr(e)[:300]))
+                return 1
             known = set(k['sig'] for k in chk.known)
             bad = [x for x in rep.items if (x[0] == replay['signature'] if replay.get('signature') else x[0] not in known)]
             for sig, det in bad[:10]:
@@ -1110,8 +1229,52 @@ def run(chk, replay=None):
             return 1 if bad else 0
         G = Gen(V, chk.rng, chk.tier)
         n = 200 if chk.tier == 'quick' else 3000      # (250 until round 6; the histories and nests added then cost about as much as 50 documents)
-        for i in range(n):
+        # documents n .. : picture names that a normalisation would change (n: the fixed list, n+1: drawn), then three big
+        # parts of multi-byte characters, one byte apart (they come last: the documents 0..n-1 are the ones of the earlier rounds)
+        npic = 2 if chk.tier == 'quick' else 12
+        nbig = 3 if chk.tier == 'quick' else 9
+        big_base = {}; big_seen = {}
+        for i in range(n + npic + nbig):
             # document 3 (and every 100th) embeds 10-12 sub-documents: folder numbers with two digits
+            if i >= n:
+                if i < n + npic:
+                    rec = G.pictures_doc(fixed=(i == n), cls=['Text', 'Drawing'][i - n] if i < n + 2 else None)
+                    chk.count('picture_names_docs'); chk.count('named_pictures', len(rec['pictures']) + len(rec['objects'][0]['pictures']))
+                else:
+                    j = i - n - npic
+                    rec = G.big_part(j % 3, objects=(j >= 3))
+                    b = rec['extreme']['big']
+                    b['orders'] = [[0, 1], [1, 2], [2, 0]][j // 3]
+                    if j % 3 and big_base.get(j // 3):
+                        b['at'] = [x + j % 3 for x in big_base[j // 3]]
+                    chk.count('big_part_docs')
+                rec = json.loads(json.dumps(rec))
+                try:
+                    rep, raw1, d2, s1 = run_recipe(V, rec, tmpdir)
+                except Exception as e:
+                    import traceback
+                    chk.fail('raises:%s' % type(e).__name__, rec, traceback.format_exc()[-600:])
+                    if i >= n + npic and j % 3 == 0:
+                        big_base[j // 3] = rec['extreme']['big'].get('at')
+                    continue
+                if i >= n + npic:
+                    if j % 3 == 0:
+                        big_base[j // 3] = rec['extreme']['big']['at']
+                    for part, ks in sorted(getattr(rep, 'straddled', {}).items()):
+                        for k in ks:
+                            big_seen.setdefault(part, set()).add(k); chk.count('straddle:%s:2^%d' % (part, k))
+                p1 = L.read_pkg(raw1)
+                key = {'doc': i, 'class': rec['class']}
+                if i < n + npic or j == 0:
+                    for folder, real in sorted(d2._loaded_sections.items()):
+                        L.correspond_document(chk, drv, p1, folder, real, dict(key, folder=folder), rng=chk.rng if i % 2 else None)
+                chk.case(i, nontrivial=True, sample={'class': rec['class'], 'pictures': [x[1] for x in rec['pictures']][:6], 'findings': sorted(set(s for s, _ in rep.items))})
+                seen = set()
+                for sig, det in rep.items:
+                    if sig not in seen:
+                        seen.add(sig)
+                        chk.fail(sig, rec, det)
+                continue
             extreme = None
             if i in (5, 6, 7, 8, 9) or i % 97 == 96:
                 # corners: DEEP (130-400 nested elements), WIDE (thousands of siblings), one LONG text node (> 64 KiB);
@@ -1176,6 +1339,10 @@ def run(chk, replay=None):
                 if sig not in seen:
                     seen.add(sig)
                     chk.fail(sig, rec, det)
+        for part in (u'content.xml', u'styles.xml'):
+            for k in L.STRADDLE_K:
+                if k not in big_seen.get(part, ()):
+                    chk.count('straddle-not-reached:%s:2^%d' % (part, k))      # generator coverage, visible in the evidence
     finally:
         shutil.rmtree(tmpdir, ignore_errors=True)
     return chk.finish()
